@@ -194,6 +194,11 @@ class FuncSpaces:
                         self.env[n.target.id] = s
                 elif isinstance(n, (ast.For, ast.AsyncFor)):
                     self._bind_target(n.target, n.iter)
+                elif isinstance(n, ast.Call) and isinstance(n.func, ast.Attribute) and n.func.attr in ("add", "append") and len(n.args) == 1 \
+                        and isinstance(n.func.value, ast.Name) and not self.env.get(n.func.value.id):
+                    s = self.space(n.args[0])        # an accumulator takes the spelling of what is put into it
+                    if s:
+                        self.env[n.func.value.id] = s
                 elif isinstance(n, (ast.SetComp, ast.ListComp, ast.GeneratorExp, ast.DictComp)):
                     self._bind_generators(n.generators)
         self.conflicts = []
